@@ -5,7 +5,7 @@
     transactions including every public interchain-contract method. *)
 From BX Require Import Model.Router Proofs.RouterProofs.
 From BX Require Import Base.Prelude Base.Fsm Model.TxFsm Model.TxMgr Model.Interchain Model.IbtpExec Model.IbtpMon Model.IbtpJudge
-     Proofs.IbtpIc Proofs.IbtpInv Proofs.IbtpBlock Proofs.IbtpProps.
+     Proofs.IbtpIc Proofs.IbtpInv Proofs.IbtpBlock Proofs.IbtpProps Proofs.IbtpFin.
 From BX Require Import Proofs.IbtpMonProofs.
 Local Open Scope N_scope.
 
@@ -54,6 +54,15 @@ Theorem C02_receipt_order : forall w st h serial b t' c' r,
   i_rcpt c' (b_id b) = Some serial.
 Proof. exact c02_receipt_step. Qed.
 Print Assumptions C02_receipt_order.
+
+(** ReceiptCounter counts the finalised receipts: among the accepted indices 1..InterchainCounter of a
+    pair exactly the first ReceiptCounter ones are finalised ([fin]: the status query reports a final
+    status; for a child of a one-to-many transaction that is the group's status) *)
+Theorem C02_receipt_count : forall w st f t x,
+  reach w st -> 1 <= x <= IC (s_ic st) f t ->
+  (x <= RC (s_ic st) f t <-> fin (s_tm st) (f, t, x) = true).
+Proof. exact c02_receipt_count. Qed.
+Print Assumptions C02_receipt_count.
 
 (** a rejected IBTP (duplicate, future, zero, huge, unknown, unavailable source, wrong type, bad
     proof is rejected before) leaves the whole contract state — counters, index maps, transaction
